@@ -5,5 +5,6 @@ CONSTANTS
   Extras = {"x1", "x2"}
   Matrix = "pinned"
   ElseKey = FALSE
+  NameKeys = "named"
   Unannotated = FALSE
   Emit = FALSE
